@@ -53,6 +53,9 @@ Proof. unfold square. gd. Qed.
 Theorem C20_UtriangleQsparse : forall d, guard_UtriangleQsparse d =
   negb (is2 (A d) && square (A d) && Nat.eqb (a_s0 (A d)) (a_s0 (B d))).
 Proof. unfold is2, square. gd. Qed.
+(* truncated Q-SVD: a 2-D array and a truncation rank no larger than both dimensions *)
+Theorem C20_classical_qsvd : forall d, guard_classical_qsvd d = negb (is2 (A d) && Nat.leb (n1 d) (Nat.min (a_s0 (A d)) (a_s1 (A d)))).
+Proof. unfold is2. intros d. unfold guard_classical_qsvd. change (Nat.leb 0 (n1 d)) with true. btauto. Qed.
 (* complex-adjoint power iteration: both enumerated options are validated, whatever the matrix *)
 Theorem C20_power_iteration_nonhermitian : forall d, guard_power_iteration_nonhermitian d =
   negb ((String.eqb (opt d) "complex" || String.eqb (opt d) "quaternion") && String.eqb (opt2 d) "x").
